@@ -1,8 +1,236 @@
-(* C42 — proofs. *)
-From Coq Require Import List NArith Bool Arith Lia.
+(* C42 — proofs, part 1: association lists, the invariant `consistent` is kept by every single write of every
+   phase of exec_apply, for every schedule and every set of failing writes. *)
+From Coq Require Import List NArith Bool Arith Lia Permutation.
 From Verif.C42 Require Import Model Spec.
 Import ListNotations.
 Open Scope N_scope.
 
-Lemma consistent_empty : consistent [] [].
-Proof. intros k v H. discriminate. Qed.
+(* ------------------------------------------------------------------ decidable equalities *)
+Lemma pair_eqb_spec : forall a b : N * N, pair_eqb a b = true <-> a = b.
+Proof.
+  intros [a1 a2] [b1 b2]. unfold pair_eqb. simpl. rewrite andb_true_iff, !N.eqb_eq.
+  split; [intros [-> ->]; reflexivity | intros H; inversion H; auto].
+Qed.
+Lemma fkey_eqb_spec : forall a b, fkey_eqb a b = true <-> a = b.
+Proof.
+  intros [a1 a2 a3] [b1 b2 b3]. unfold fkey_eqb. simpl. rewrite !andb_true_iff, !N.eqb_eq.
+  split; [intros [[-> ->] ->]; reflexivity | intros H; inversion H; auto].
+Qed.
+Lemma fval_eqb_spec : forall a b, fval_eqb a b = true <-> a = b.
+Proof.
+  intros [a1 a2 a3 a4 a5] [b1 b2 b3 b4 b5]. unfold fval_eqb. simpl. rewrite !andb_true_iff, !N.eqb_eq.
+  split; [intros [[[[-> ->] ->] ->] ->]; reflexivity | intros H; inversion H; auto 10].
+Qed.
+Lemma write_eqb_spec : forall a b, write_eqb a b = true <-> a = b.
+Proof.
+  intros [k v|k|k v|k] [k' v'|k'|k' v'|k']; simpl; try (split; [discriminate | intros H; inversion H]).
+  - rewrite andb_true_iff, fkey_eqb_spec, fval_eqb_spec. split; [intros [-> ->]; auto | intros H; inversion H; auto].
+  - rewrite fkey_eqb_spec. split; [intros ->; auto | intros H; inversion H; auto].
+  - rewrite andb_true_iff, !pair_eqb_spec. split; [intros [-> ->]; auto | intros H; inversion H; auto].
+  - rewrite pair_eqb_spec. split; [intros ->; auto | intros H; inversion H; auto].
+Qed.
+
+(* ------------------------------------------------------------------ generic association-list facts *)
+Section ALFacts.
+  Variables K V : Type.
+  Variable eqb : K -> K -> bool.
+  Hypothesis eqb_spec : forall a b, eqb a b = true <-> a = b.
+
+  Lemma eqb_refl : forall a, eqb a a = true.
+  Proof. intros. apply eqb_spec. reflexivity. Qed.
+  Lemma eqb_neq : forall a b, a <> b -> eqb a b = false.
+  Proof. intros a b H. destruct (eqb a b) eqn:E; auto. apply eqb_spec in E. contradiction. Qed.
+  Lemma eqb_dec : forall a b : K, {a = b} + {a <> b}.
+  Proof.
+    intros a b. destruct (eqb a b) eqn:E.
+    - left. apply eqb_spec; auto.
+    - right. intros ->. rewrite eqb_refl in E. discriminate.
+  Qed.
+
+  Lemma lookup_del_same : forall (m : list (K * V)) k, lookup eqb (del eqb k m) k = None.
+  Proof.
+    induction m as [|[k' v] m IH]; intros k; simpl; auto.
+    destruct (eqb k k') eqn:E; auto. simpl. rewrite E. auto.
+  Qed.
+  Lemma lookup_del_other : forall (m : list (K * V)) k k', k <> k' -> lookup eqb (del eqb k m) k' = lookup eqb m k'.
+  Proof.
+    induction m as [|[k0 v] m IH]; intros k k' H; simpl; auto.
+    destruct (eqb k k0) eqn:E.
+    - apply eqb_spec in E. subst k0. rewrite (eqb_neq k' k) by congruence. auto.
+    - simpl. destruct (eqb k' k0); auto.
+  Qed.
+  Lemma lookup_upd_same : forall (m : list (K * V)) k v, lookup eqb (upd eqb k v m) k = Some v.
+  Proof. intros. unfold upd. simpl. rewrite eqb_refl. auto. Qed.
+  Lemma lookup_upd_other : forall (m : list (K * V)) k v k', k <> k' -> lookup eqb (upd eqb k v m) k' = lookup eqb m k'.
+  Proof.
+    intros. unfold upd. simpl. rewrite (eqb_neq k' k) by congruence. apply lookup_del_other; auto.
+  Qed.
+  Lemma lookup_In : forall (m : list (K * V)) k v, lookup eqb m k = Some v -> In (k, v) m.
+  Proof.
+    induction m as [|[k0 v0] m IH]; intros k v H; simpl in *; try discriminate.
+    destruct (eqb k k0) eqn:E.
+    - apply eqb_spec in E. inversion H. subst. auto.
+    - right. auto.
+  Qed.
+  Lemma In_lookup_some : forall (m : list (K * V)) k v, In (k, v) m -> lookup eqb m k <> None.
+  Proof.
+    induction m as [|[k0 v0] m IH]; intros k v H; simpl in *; try contradiction.
+    destruct (eqb k k0) eqn:E; try discriminate.
+    destruct H as [H|H]; [inversion H; subst; rewrite eqb_refl in E; discriminate | eauto].
+  Qed.
+  Lemma lookup_none_not_in : forall (m : list (K * V)) k, lookup eqb m k = None -> forall v, ~ In (k, v) m.
+  Proof. intros m k H v Hin. apply In_lookup_some in Hin. contradiction. Qed.
+
+  (* keys unique *)
+  Definition ukeys (m : list (K * V)) : Prop := NoDup (map fst m).
+  Lemma in_del : forall (m : list (K * V)) k x, In x (del eqb k m) -> In x m /\ fst x <> k.
+  Proof.
+    induction m as [|[k0 v0] m IH]; intros k x H; simpl in *; try contradiction.
+    destruct (eqb k k0) eqn:E.
+    - apply IH in H. tauto.
+    - destruct H as [H|H].
+      + subst x. split; auto. simpl. intros ->. rewrite eqb_refl in E. discriminate.
+      + apply IH in H. tauto.
+  Qed.
+  Lemma ukeys_del : forall (m : list (K * V)) k, ukeys m -> ukeys (del eqb k m).
+  Proof.
+    unfold ukeys. induction m as [|[k0 v0] m IH]; intros k H; simpl in *; auto.
+    inversion H; subst. destruct (eqb k k0); auto. simpl. constructor; auto.
+    intros Hin. apply in_map_iff in Hin. destruct Hin as [x [Hx Hin]]. apply in_del in Hin.
+    apply H2. apply in_map_iff. exists x. tauto.
+  Qed.
+  Lemma ukeys_upd : forall (m : list (K * V)) k v, ukeys m -> ukeys (upd eqb k v m).
+  Proof.
+    unfold ukeys, upd. intros m k v H. simpl. constructor.
+    - intros Hin. apply in_map_iff in Hin. destruct Hin as [x [Hx Hin]]. apply in_del in Hin. tauto.
+    - apply ukeys_del; auto.
+  Qed.
+  Lemma ukeys_In_lookup : forall (m : list (K * V)) k v, ukeys m -> In (k, v) m -> lookup eqb m k = Some v.
+  Proof.
+    unfold ukeys. induction m as [|[k0 v0] m IH]; intros k v U H; simpl in *; try contradiction.
+    inversion U; subst. destruct H as [H|H].
+    - inversion H; subst. rewrite eqb_refl. auto.
+    - destruct (eqb k k0) eqn:E; auto. apply eqb_spec in E. subst k0.
+      exfalso. apply H2. apply in_map_iff. exists (k, v). auto.
+  Qed.
+  Lemma ukeys_of_list : forall l : list (K * V), ukeys (of_list eqb l).
+  Proof.
+    intros l. unfold of_list.
+    assert (G : forall (l m : list (K * V)), ukeys m -> ukeys (fold_left (fun m kv => upd eqb (fst kv) (snd kv) m) l m)).
+    { induction l0 as [|x l0 IH]; intros m H; simpl; auto. apply IH. apply ukeys_upd; auto. }
+    apply G. constructor.
+  Qed.
+  (* a key of of_list comes from the list *)
+  Lemma of_list_lookup_in : forall (l : list (K * V)) k v, lookup eqb (of_list eqb l) k = Some v -> In (k, v) l.
+  Proof.
+    intros l. unfold of_list.
+    assert (G : forall (l m : list (K * V)) k v, lookup eqb (fold_left (fun m kv => upd eqb (fst kv) (snd kv) m) l m) k = Some v ->
+                                In (k, v) l \/ lookup eqb m k = Some v).
+    { induction l0 as [|[k0 v0] l0 IH]; intros m k v H; cbn [fold_left fst snd In] in *; auto.
+      apply IH in H. destruct H as [H|H]; auto.
+      destruct (eqb_dec k0 k) as [->|Hne].
+      - rewrite lookup_upd_same in H. inversion H; subst. auto.
+      - rewrite lookup_upd_other in H by auto. auto. }
+    intros k v H. apply G in H. destruct H as [H|H]; auto. discriminate.
+  Qed.
+  Lemma of_list_in_lookup : forall (l : list (K * V)) k v, In (k, v) l -> lookup eqb (of_list eqb l) k <> None.
+  Proof.
+    intros l. unfold of_list.
+    assert (G : forall (l m : list (K * V)) k, (exists v, In (k, v) l) \/ lookup eqb m k <> None ->
+                 lookup eqb (fold_left (fun m kv => upd eqb (fst kv) (snd kv) m) l m) k <> None).
+    { induction l0 as [|[k0 v0] l0 IH]; intros m k H; cbn [fold_left fst snd In] in *.
+      - destruct H as [[v []]|H]; auto.
+      - apply IH. destruct H as [[v [H|H]]|H].
+        + inversion H; subst. right. rewrite lookup_upd_same. discriminate.
+        + left. eauto.
+        + right. destruct (eqb_dec k0 k) as [->|Hne].
+          * rewrite lookup_upd_same. discriminate.
+          * rewrite lookup_upd_other; auto. }
+    intros k v H. apply G. left. eauto.
+  Qed.
+End ALFacts.
+
+Arguments ukeys {K V}.
+
+(* ------------------------------------------------------------------ single writes keep `consistent` *)
+Definition cons_dp (d : dp) : Prop := consistent (fst d) (snd d).
+
+Lemma del_fe_consistent : forall fe be k, consistent fe be -> consistent (del fkey_eqb k fe) be.
+Proof.
+  intros fe be k H k' v Hl i Hi.
+  destruct (eqb_dec _ fkey_eqb fkey_eqb_spec k k') as [->|Hne].
+  - rewrite (lookup_del_same _ _ fkey_eqb) in Hl. discriminate.
+  - rewrite (lookup_del_other _ _ fkey_eqb fkey_eqb_spec) in Hl by auto. eapply H; eauto.
+Qed.
+Lemma set_be_consistent : forall fe be k v, consistent fe be -> consistent fe (upd pair_eqb k v be).
+Proof.
+  intros fe be k v H k' v' Hl i Hi.
+  destruct (eqb_dec _ pair_eqb pair_eqb_spec k (fv_id v', i)) as [->|Hne].
+  - rewrite (lookup_upd_same _ _ pair_eqb pair_eqb_spec). discriminate.
+  - rewrite (lookup_upd_other _ _ pair_eqb pair_eqb_spec) by auto. eapply H; eauto.
+Qed.
+Lemma set_fe_consistent : forall fe be k v,
+  consistent fe be -> (forall i, i < fv_count v -> lookup pair_eqb be (fv_id v, i) <> None) ->
+  consistent (upd fkey_eqb k v fe) be.
+Proof.
+  intros fe be k v H Hv k' v' Hl i Hi.
+  destruct (eqb_dec _ fkey_eqb fkey_eqb_spec k k') as [->|Hne].
+  - rewrite (lookup_upd_same _ _ fkey_eqb fkey_eqb_spec) in Hl. inversion Hl; subst. auto.
+  - rewrite (lookup_upd_other _ _ fkey_eqb fkey_eqb_spec) in Hl by auto. eapply H; eauto.
+Qed.
+Lemma del_be_consistent : forall fe be k,
+  consistent fe be ->
+  (forall k' v', lookup fkey_eqb fe k' = Some v' -> forall i, i < fv_count v' -> k <> (fv_id v', i)) ->
+  consistent fe (del pair_eqb k be).
+Proof.
+  intros fe be k H Hk k' v' Hl i Hi.
+  rewrite (lookup_del_other _ _ pair_eqb pair_eqb_spec) by (eapply Hk; eauto). eapply H; eauto.
+Qed.
+
+Lemma states_after_app : forall ws1 ws2 d,
+  states_after d (ws1 ++ ws2) = states_after d ws1 ++ states_after (do_writes d ws1) ws2.
+Proof.
+  induction ws1 as [|w ws1 IH]; intros ws2 d; simpl; auto. rewrite IH. reflexivity.
+Qed.
+Lemma do_writes_app : forall ws1 ws2 d, do_writes d (ws1 ++ ws2) = do_writes (do_writes d ws1) ws2.
+Proof. intros. unfold do_writes. apply fold_left_app. Qed.
+
+(* a sequence of writes each of which keeps an invariant that itself is kept *)
+Lemma writes_keep : forall (P : dp -> Prop) (ok : write -> Prop),
+  (forall d w, P d -> cons_dp d -> ok w -> P (do_write d w) /\ cons_dp (do_write d w)) ->
+  forall ws d, P d -> cons_dp d -> Forall ok ws ->
+  Forall cons_dp (states_after d ws) /\ P (do_writes d ws) /\ cons_dp (do_writes d ws).
+Proof.
+  intros P ok Hstep. induction ws as [|w ws IH]; intros d HP HC Hok; simpl.
+  - auto.
+  - inversion Hok; subst. destruct (Hstep d w HP HC H1) as [HP' HC'].
+    destruct (IH _ HP' HC' H2) as [A [B C]]. auto.
+Qed.
+
+(* ------------------------------------------------------------------ perm_of *)
+Lemma memb_In : forall A (eqb : A -> A -> bool), (forall a b, eqb a b = true <-> a = b) ->
+  forall x l, memb eqb x l = true <-> In x l.
+Proof.
+  intros A eqb Hs x l. induction l as [|y l IH]; simpl.
+  - split; [discriminate | contradiction].
+  - rewrite orb_true_iff, IH, Hs. split; intros [H|H]; auto.
+Qed.
+Lemma nodupb_NoDup : forall A (eqb : A -> A -> bool), (forall a b, eqb a b = true <-> a = b) ->
+  forall l, nodupb eqb l = true <-> NoDup l.
+Proof.
+  intros A eqb Hs l. induction l as [|y l IH]; simpl.
+  - split; [constructor | auto].
+  - rewrite andb_true_iff, negb_true_iff, IH. split.
+    + intros [H1 H2]. constructor; auto. intros Hin. apply (memb_In _ _ Hs) in Hin. congruence.
+    + intros H. inversion H; subst. split; auto. destruct (memb eqb y l) eqn:E; auto.
+      apply (memb_In _ _ Hs) in E. contradiction.
+Qed.
+Lemma perm_of_spec : forall A (eqb : A -> A -> bool), (forall a b, eqb a b = true <-> a = b) ->
+  forall l1 l2, perm_of eqb l1 l2 = true -> incl l1 l2 /\ incl l2 l1 /\ NoDup l1.
+Proof.
+  intros A eqb Hs l1 l2 H. unfold perm_of in H. rewrite !andb_true_iff in H. destruct H as [[HL HN] HI].
+  apply Nat.eqb_eq in HL. apply (nodupb_NoDup _ _ Hs) in HN.
+  assert (I12 : incl l1 l2).
+  { intros x Hx. rewrite forallb_forall in HI. apply (memb_In _ _ Hs). auto. }
+  split; auto. split; auto. apply NoDup_length_incl; auto. lia.
+Qed.
